@@ -67,8 +67,8 @@ theorem appbits_decode (w : Wire) (a : UInt8) (items : List Item) (hext : w.ext 
   rw [henc] at this
   exact ⟨_, this, by simp [hdrOf, Wire.toPacket, w', asLegacy, ExtBlock.elements]⟩
 
-theorem appbits_fails (w : Wire) (hw : w.WF = true) (ha : w.appbits = true) (qs : List UInt8) :
-    acceptsOK w (modelObs w.encode qs) = false := by
+theorem appbits_fails (w : Wire) (hw : w.WF = true) (ha : w.appbits = true) (qs : List UInt8) (prev : Bytes) :
+    acceptsOK w (modelObs w.encode qs prev) = false := by
   cases hx : w.ext with
   | none => simp [Wire.appbits, hx] at ha
   | some b =>
@@ -81,6 +81,7 @@ theorem appbits_fails (w : Wire) (hw : w.WF = true) (ha : w.appbits = true) (qs 
       have hitems : items.all Item.wf2 = true := by
         simp only [Wire.WF, Bool.and_eq_true, hx, ExtBlock.WF] at hw; exact hw.1.2.1.2
       simp only [acceptsOK, modelObs, h1, Res.map, Res.coarse]
+      rw [Bool.and_eq_false_iff]; left
       rw [Bool.and_eq_false_iff]; left
       rw [beq_eq_false_iff_ne]
       intro hc
